@@ -240,7 +240,7 @@ func rulesC16(c *Ctx) {
 						allInc = false
 						continue
 					}
-					bo, isBO := a[pi].(*ssa.BinOp)
+					bo, isBO := resolveParam(a[pi]).(*ssa.BinOp)
 					k, isK := int64(0), false
 					if isBO {
 						k, isK = constInt(bo.Y)
